@@ -19,7 +19,8 @@ EXPLANATION = (
     'after a send of a copy; each received byte is validated exactly once; (P2) the UTF-8 validator state persists '
     'across chunks/frames and is reset only at end of message; (P3) no other layer inspects the chunk (opaque '
     'pass-through; run() uses it only for the EOF test); the session forwards a copy-free view whose aliasing is '
-    'contained (C01.alias).')
+    'contained (C01.alias).'
+    ' Also decided: package-wide isolation (objects created once per class or per function definition - class-level attributes, parameter defaults - are only read), so that no buffer, validator, cache, lock or option table is shared between connections by accident.')
 NOT_DECIDED = ('the equivalence itself; bytes written in response; cuts inside compressed blocks (zlib streaming); '
                'recv sizes')
 ASSUMPTIONS = ['zlib inflate is insensitive to input chunking', 'bytearray.find / extend behave as documented']
